@@ -73,6 +73,35 @@ def fileSeek (fs : Fs) (fd : Fd) (off : Int) (w : Whence) : Fd × Option Nat :=
   | (fd', .ok n) => (fd', some n)
   | (fd', .error _) => (fd', none)
 
+/-- the operations on one open File object and what they answer -/
+inductive FileOp
+  | write (d : Bytes)
+  | seek (off : Int) (w : Whence)
+  | readAll
+  | size
+deriving Repr
+
+inductive FileOut
+  | wrote (ok : Bool)
+  | pos (p : Option Nat)
+  | data (d : Option Bytes)
+  | size (n : Option Nat)
+deriving Repr, DecidableEq
+
+def fileStep (fs : Fs) (fd : Fd) : FileOp → Fs × Fd × FileOut
+  | .write d => let (fs', fd', ok) := fileWrite fs fd d; (fs', fd', .wrote ok)
+  | .seek off w => let (fd', r) := fileSeek fs fd off w; (fs, fd', .pos r)
+  | .readAll => let (fd', r) := fileReadAll fs fd; (fs, fd', .data r)
+  | .size => let (fd', r) := fileSize fs fd; (fs, fd', .size r)
+
+/-- a script of operations on one File object -/
+def runOps (fs : Fs) (fd : Fd) : List FileOp → Fs × Fd × List FileOut
+  | [] => (fs, fd, [])
+  | op :: rest =>
+    let (fs1, fd1, o) := fileStep fs fd op
+    let (fs2, fd2, os) := runOps fs1 fd1 rest
+    (fs2, fd2, o :: os)
+
 /-- static File::readAll(path, data) -/
 def fileReadAllPath (fs : Fs) (path : Bytes) : Option Bytes :=
   match fileOpen fs path readFlag with
@@ -148,21 +177,23 @@ def mkdirF (fs : Fs) (path : Bytes) (fault : Option Nat) : Fs × Bool × Option 
   | some (k + 1) => let (fs', r) := sysMkdir fs path; (fs', isOk r, some k, false)
   | none => let (fs', r) := sysMkdir fs path; (fs', isOk r, none, false)
 
+/-- the tail of Directory::create: `mkdir(dir)`, and when that fails the answer is Directory::exists(dir) -/
+def createHere (fs : Fs) (dir : Bytes) (fault : Option Nat) (fired : Nat) : Fs × Bool × Option Nat × Nat :=
+  match mkdirF fs dir fault with
+  | (fs', true, fault', f) => (fs', true, fault', fired + (if f then 1 else 0))
+  | (fs', false, fault', f) => (fs', dirExists fs' dir, fault', fired + (if f then 1 else 0))
+
 /-- Directory::create (repaired).  The recursion follows getDirectoryName, which shortens the string;
     `fuel` ≥ length of `dir` + 1 is enough.  Result: (world, returned bool, fault countdown, faults fired) -/
 def dirCreate : Nat → Fs → Bytes → Option Nat → Nat → Fs × Bool × Option Nat × Nat
   | 0, fs, _, fault, fired => (fs, false, fault, fired)
   | fuel + 1, fs, dir, fault, fired =>
     let parent := getDirectoryName dir
-    let goOn (fs : Fs) (fault : Option Nat) (fired : Nat) : Fs × Bool × Option Nat × Nat :=
-      match mkdirF fs dir fault with
-      | (fs', true, fault', f) => (fs', true, fault', fired + (if f then 1 else 0))
-      | (fs', false, fault', f) => (fs', dirExists fs' dir, fault', fired + (if f then 1 else 0))
     if parent ≠ [46] ∧ parent ≠ [] ∧ dirExists fs parent = false then
       match dirCreate fuel fs parent fault fired with
       | (fs', false, fault', fired') => (fs', false, fault', fired')
-      | (fs', true, fault', fired') => goOn fs' fault' fired'
-    else goOn fs fault fired
+      | (fs', true, fault', fired') => createHere fs' dir fault' fired'
+    else createHere fs dir fault fired
 
 def dirCreateTop (fs : Fs) (dir : Bytes) (fault : Option Nat) : Fs × Bool × Nat :=
   let (fs', r, _, fired) := dirCreate (dir.length + 1) fs dir fault 0
